@@ -133,6 +133,10 @@ def lag_judge(p, ex):
             stable]                                         # locking: A and B, lifo kind
     for qi in range(3):
         got = o["contents"][qi]
+        if qi == 2:
+            # a lifo delivery into a LockingDeque (an active object's queue) goes to the front (C09): the order of
+            # arrival is the reverse of the contents
+            got = list(reversed(got))
         if got != want[qi]:
             if sorted(got) != sorted(want[qi]):
                 key = "%s/lag/lost-or-extra" % PID
@@ -141,7 +145,7 @@ def lag_judge(p, ex):
                 pr = {x[0]: x[2] for x in pubs}
                 inv = any(pr[a] > pr[b] for a, b in zip(got, got[1:]))
                 key = "%s/%s" % (PID, "priority-order" if inv else "equal-priority-order")
-            out.append((key, "publications %r (all made before a delivery thread ran, mode %s) reached subscriber %d as %r, "
+            out.append((key, "publications %r (all made before a delivery thread ran, mode %s) reached subscriber %d in the order %r, "
                         "expected %r" % (p["pubs"], p["mode"], qi, got, want[qi])))
     calls = {k: tuple(v) for k, v in o["calls"].items()}
     for t in ("fifo", "lifo"):
